@@ -9,6 +9,7 @@ import (
 	"go/types"
 	"os"
 	"path/filepath"
+	"regexp"
 	"sort"
 	"strings"
 	"sync"
@@ -269,6 +270,8 @@ func verifyFunc(prog *Program, fi *FuncInfo, ct *Contract, opts *Options) (fr *F
 		}
 	}
 	e.entry = st.clone()
+	e.syncCtx(e.ctxPC)
+	e.bodyStart = len(e.assumps)
 	out := e.execBlock(st, fd.Body.List)
 	if !out.dead {
 		e.checkPosts(out, fd.Body.Rbrace)
@@ -386,10 +389,22 @@ func (o *Obligation) cases() [][]Term { return o.Splits }
 
 func (o *Obligation) queryWith(extra []Term) string { return o.querySel(extra, false) }
 
+var defRe = regexp.MustCompile(`^\(assert \(= ([A-Za-z_][A-Za-z0-9_.]*![0-9]+) `)
+
 const predAxiomPrefix = "(assert (forall ((v!pred Int)) (! (= ("
 
 func (o *Obligation) querySel(extra []Term, selectPremises bool) string {
+	return o.queryFull(extra, selectPremises, false)
+}
+
+// queryFull builds the query. local: premises generated by code before the enclosing loop head are
+// dropped, except preconditions, global axioms and the definitions of symbols the query mentions.
+func (o *Obligation) queryFull(extra []Term, selectPremises bool, local bool) string {
 	e := o.exec
+	if o.Cut <= e.bodyStart {
+		local = false
+	}
+	var deferred []int // candidate definitions from the dropped region
 	var body strings.Builder
 	var predAxioms []string
 	included := map[int]bool{}
@@ -412,6 +427,12 @@ func (o *Obligation) querySel(extra []Term, selectPremises bool) string {
 			if !rel && pcNameRe.MatchString(c) {
 				continue
 			}
+		}
+		if local && i >= e.bodyStart && i < o.Cut && e.actx[i] != "true" {
+			if defRe.MatchString(a) {
+				deferred = append(deferred, i)
+			}
+			continue
 		}
 		included[i] = true
 		if strings.HasPrefix(a, predAxiomPrefix) {
@@ -441,6 +462,26 @@ func (o *Obligation) querySel(extra []Term, selectPremises bool) string {
 		body.WriteString("(assert (not " + o.Goal.S + "))\n")
 	}
 	txt := body.String()
+	if len(deferred) > 0 {
+		// pull in the definitions of symbols that the query refers to (transitively)
+		pulled := map[int]bool{}
+		for changed := true; changed; {
+			changed = false
+			for k := len(deferred) - 1; k >= 0; k-- {
+				i := deferred[k]
+				if pulled[i] {
+					continue
+				}
+				m := defRe.FindStringSubmatch(e.assumps[i])
+				if m != nil && strings.Contains(txt, m[1]) {
+					pulled[i] = true
+					included[i] = true
+					txt = e.assumps[i] + "\n" + txt
+					changed = true
+				}
+			}
+		}
+	}
 	// definitions of named set predicates: only those reachable from the obligation (cone of influence)
 	if len(predAxioms) > 0 {
 		used := make([]bool, len(predAxioms))
@@ -582,6 +623,16 @@ func dischargeOne(o *Obligation, budget float64) SolverResult {
 	var r SolverResult
 	var done bool
 	sel := o.hasTagged()
+	if o.Cut > o.exec.bodyStart {
+		// loop-local attempt: only the premises from the enclosing loop head onwards (+ preconditions, axioms, needed definitions)
+		lr := solve(o.queryFull(nil, true, true), short, false)
+		spent += lr.Time
+		if lr.Status == "unsat" {
+			lr.Solver += "+local"
+			lr.Time = spent
+			return lr
+		}
+	}
 	if sel {
 		if r, done = try(true, false, short, "+sel"); done {
 			r.Time = spent
@@ -868,6 +919,7 @@ func contractFor(prog *Program, fi *FuncInfo) *Contract {
 		m.Ints = append(append([]string(nil), ic.Ints...), own.Ints...)
 		m.Mode = own.Mode
 		m.Panics = own.Panics
+		m.Hints = own.Hints
 		return &m
 	}
 	return own
